@@ -16,6 +16,14 @@ import (
 type runCfg struct {
 	Mode     int  `json:"mode"`
 	ObsEvery bool `json:"obs_every"` // compare all observables with the model after every token (else only at structure tokens and at the end)
+	ObsAddrs int  `json:"obs_addrs"` // observe the first ObsAddrs addresses of the universe (0 = all); stages whose alphabet names one address observe that one
+}
+
+func (c runCfg) na() int {
+	if c.ObsAddrs <= 0 || c.ObsAddrs > NA {
+		return NA
+	}
+	return c.ObsAddrs
 }
 
 type failure struct {
@@ -100,10 +108,10 @@ func run(prog []Op, c runCfg, tr tracer) (fail *failure, feasible bool) {
 	}
 	obsReal := func(s *state.StateDB) Obs {
 		locObs++
-		return observe(s)
+		return observe(s, c.na())
 	}
 	vsModel := func(o *Obs, oracle string) *failure {
-		mo := m.obs()
+		mo := m.obs(c.na())
 		if *o == mo {
 			return nil
 		}
@@ -250,7 +258,7 @@ func run(prog []Op, c runCfg, tr tracer) (fail *failure, feasible bool) {
 			eff = append(eff, op)
 		}
 		if tr != nil {
-			tr("  step %d %-28s -> %s", step, op.String(), obsSummary(observe(R.s)))
+			tr("  step %d %-28s -> %s", step, op.String(), obsSummary(observe(R.s, c.na())))
 		}
 		if c.ObsEvery || structural || step == len(prog)-1 {
 			o := obsReal(R.s)
